@@ -70,6 +70,8 @@ def run(rep):
     f = core.library_facts()
     rep.units.update(os.path.relpath(t, core.REPO) for t in f.tus)
     diag.run(rep, f, "C03")
+    from ..engines import dispatch
+    dispatch.run(rep, f, "C03")
     eoe_rule(rep, f)
     rep.undecided += ["every value-level clause: line-end and attribute-value normalisation, entity expansion results, character references, "
                       "DTD defaulting, line numbers — not applicable to static analysis",
